@@ -682,6 +682,23 @@ var errWatchdog = fmt.Errorf("watchdog")
 
 // crashClass extracts a short stable description of a worker crash (panic message or fatal error).
 func crashClass(s string) string {
+	if strings.Contains(s, "main bubble goroutine has exited but blocked goroutines remain") {
+		// a goroutine of the system under test stayed blocked for ever: name the first orda frame of the first such goroutine
+		ls := strings.Split(s, "\n")
+		for i, l := range ls {
+			if strings.HasPrefix(l, "goroutine ") && strings.Contains(l, "(durable), synctest bubble") {
+				for j := i + 1; j < len(ls) && strings.TrimSpace(ls[j]) != ""; j++ {
+					if f := strings.TrimSpace(ls[j]); strings.HasPrefix(f, "github.com/orda-io/orda/") {
+						if k := strings.LastIndex(f, "("); k > 0 {
+							f = f[:k]
+						}
+						return "goroutine-blocked-for-ever:" + strings.TrimPrefix(f, "github.com/orda-io/orda/")
+					}
+				}
+			}
+		}
+		return "goroutine-blocked-for-ever"
+	}
 	for _, l := range strings.Split(s, "\n") {
 		l = strings.TrimSpace(l)
 		if strings.HasPrefix(l, "panic: ") || strings.HasPrefix(l, "fatal error: ") {
@@ -716,6 +733,7 @@ func (c *ctx) shards(r Run) (*runStats, error) {
 	}
 	infos := make([]*ShardInfo, n)
 	errs := make([]error, n)
+	inflight := make([]json.RawMessage, n)
 	var wg sync.WaitGroup
 	sem := make(chan struct{}, runtime.NumCPU())
 	bin := c.workerBin(r)
@@ -747,6 +765,8 @@ func (c *ctx) shards(r Run) (*runStats, error) {
 				for k := range lines {
 					l := lines[k]
 					switch {
+					case l.I == -2 && !l.Done && len(l.Info) > 0:
+						inflight[i] = l.Info // schedule search: the schedule about to run
 					case l.Start != nil:
 						started = *l.Start
 						startLine = &lines[k]
@@ -823,7 +843,13 @@ func (c *ctx) shards(r Run) (*runStats, error) {
 		if errs[i] != nil {
 			// a dead worker without a final line: crash of the system under test or of the harness
 			v := &pt.Violation{Sig: "crash:worker-died", Msg: firstLines(errs[i].Error(), 40)}
-			c.record(r, nil, v, map[string]int{"shard": i, "shards": n})
+			var extra interface{} = map[string]int{"shard": i, "shards": n}
+			if len(inflight[i]) > 0 {
+				v.Sig = "crash:worker-died:" + crashClass(errs[i].Error())
+				v.Msg = "the worker process died while executing the schedule recorded in this replay file:\n" + firstLines(errs[i].Error(), 60)
+				extra = inflight[i]
+			}
+			c.record(r, nil, v, extra)
 			st.Exhaustive = false
 			st.Cap = "a worker died"
 			continue
